@@ -357,11 +357,11 @@ theorem ednsFrom_optRecord (ed : Edns) (hwf : EdnsWF ed) : ednsFrom (optRecordRe
 
 /-- one iteration of `read_records` on a record's layout, whatever follows -/
 theorem readRecords_step {H : Nat × Nat → Prop} {opq : Nat → Rd Bytes} {buf : Bytes} {isAdd : Bool} {op : Nat}
-    (r : Record) (hwf : SectionOK op r) {p m e : Nat} (l1 : layRecord r H buf p m)
+    (r : Record) (hwf : SectionOK op r isAdd) {p m e : Nat} (l1 : layRecord r H buf p m)
     (acc : List Record) (edns : Option Edns) (count : Nat) (v : RecAcc)
     (hrest : Reads (readRecords opq isAdd op count (acc ++ [r.fq], edns, none)) buf m v e) :
     Reads (readRecords opq isAdd op (count + 1) (acc, edns, none)) buf p v e := by
-  obtain ⟨hr, hs1, hs2, hup⟩ := hwf
+  obtain ⟨hr, hs, hts, hup⟩ := hwf
   simp only [readRecords]
   refine Reads.bind (fun t => ⟨t + 1, rfl⟩ : Reads (Rd.tick) buf p () p) ?_
   refine Reads.bind (reads_record r hr l1) ?_
@@ -371,7 +371,13 @@ theorem readRecords_step {H : Nat × Nat → Prop} {opq : Nat → Rd Bytes} {buf
   · have hop := hup hu
     rw [if_neg (by intro hc; exact hc.1 hop)]
     simp only [Option.isSome_none, Bool.false_eq_true, ↓reduceIte]
-    rw [if_neg (by intro hc; rcases hc.2 with h1 | h1 | h1; exact hr.rtype.2 h1; exact hs1 h1; exact hs2 h1)]
+    rw [if_neg (by
+      intro hc
+      have hf : isAdd = false := by simpa using hc.1
+      rcases hc.2 with h1 | h1 | h1
+      · exact hr.rtype.2 h1
+      · exact (hs hf).1 h1
+      · exact (hs hf).2 h1)]
     cases isAdd with
     | false => simpa using hrest
     | true =>
@@ -387,7 +393,13 @@ theorem readRecords_step {H : Nat × Nat → Prop} {opq : Nat → Rd Bytes} {buf
       exact hrest
   · rw [if_neg (by intro hc; exact hu hc.2.2)]
     simp only [Option.isSome_none, Bool.false_eq_true, ↓reduceIte]
-    rw [if_neg (by intro hc; rcases hc.2 with h1 | h1 | h1; exact hr.rtype.2 h1; exact hs1 h1; exact hs2 h1)]
+    rw [if_neg (by
+      intro hc
+      have hf : isAdd = false := by simpa using hc.1
+      rcases hc.2 with h1 | h1 | h1
+      · exact hr.rtype.2 h1
+      · exact (hs hf).1 h1
+      · exact (hs hf).2 h1)]
     cases isAdd with
     | false => simpa using hrest
     | true =>
@@ -399,13 +411,13 @@ theorem readRecords_step {H : Nat × Nat → Prop} {opq : Nat → Rd Bytes} {buf
       obtain ⟨hpv, hty⟩ := hpv
       cases hdd : r.rdata <;> rw [hdd] at hpv hty <;> simp [RData.proved] at hpv <;>
         first
-        | (exfalso; exact hs2 hty.1)
+        | (exfalso; exact hu (hts rfl hty.1))
         | (simp only [Record.fq, hdd, RData.fq]; simp only [Record.fq, hdd, RData.fq] at hrest; exact hrest)
 
 /-- the record loop over a list of records' layouts, followed by whatever the remaining count reads -/
 theorem reads_records_then {H : Nat × Nat → Prop} {opq : Nat → Rd Bytes} {buf : Bytes} (isAdd : Bool) (op : Nat) :
     ∀ (rs : List Record) (k : Nat) (acc : List Record) (edns : Option Edns) (p mid e : Nat) (v : RecAcc),
-    (∀ r ∈ rs, SectionOK op r) → layAll (rs.map layRecord) H buf p mid →
+    (∀ r ∈ rs, SectionOK op r isAdd) → layAll (rs.map layRecord) H buf p mid →
     Reads (readRecords opq isAdd op k (acc ++ rs.map Record.fq, edns, none)) buf mid v e →
     Reads (readRecords opq isAdd op (rs.length + k) (acc, edns, none)) buf p v e
   | [], k, acc, edns, p, mid, e, v, _, h, hrest => by
@@ -452,7 +464,7 @@ structure MsgWFE (m : Message) : Prop where
   qs : ∀ q ∈ m.queries, q.name.WF ∧ q.qtype < 65536 ∧ q.qclass < 65536
   an : ∀ r ∈ m.answers, SectionOK m.md.op r
   ns : ∀ r ∈ m.authorities, SectionOK m.md.op r
-  ar : ∀ r ∈ m.additionals, SectionOK m.md.op r
+  ar : ∀ r ∈ m.additionals, SectionOK m.md.op r true
   edns : ∀ ed, m.edns = some ed → EdnsWF ed ∧ ed.rcodeHigh = rcodeHigh m.md.rcode
   sig : m.signature = none
 
@@ -648,9 +660,9 @@ theorem emitMessage_reads_edns (opq : Nat → Rd Bytes) (m : Message) (ed : Edns
           have LQ := lay_final (isLayout_all _ (by
             intro L hL; simp only [List.mem_map] at hL; obtain ⟨q, _, rfl⟩ := hL; exact isLayout_query q))
             (by omega) P2.lay pre2 hfblen hsame
-          have recsLay : ∀ rs : List Record, (∀ r ∈ rs, SectionOK m.md.op r) →
+          have recsLay : ∀ (b : Bool) (rs : List Record), (∀ r ∈ rs, SectionOK m.md.op r b) →
               IsLayout (layAll (rs.map layRecord)) := by
-            intro rs hrs
+            intro b rs hrs
             refine isLayout_all _ ?_
             intro L hL
             simp only [List.mem_map] at hL
@@ -662,9 +674,9 @@ theorem emitMessage_reads_edns (opq : Nat → Rd Bytes) (m : Message) (ed : Edns
           have wa := sectionOK_take anC hwf.an
           have wn := sectionOK_take nsC hwf.ns
           have wr := sectionOK_take arC hwf.ar
-          have LA := lay_final (recsLay _ wa) (by omega) P3.lay pre3 hfblen hsame
-          have LN := lay_final (recsLay _ wn) (by omega) P4.lay pre4 hfblen hsame
-          have LR := lay_final (recsLay _ wr) (by omega) P5.lay pre5 hfblen hsame
+          have LA := lay_final (recsLay _ _ wa) (by omega) P3.lay pre3 hfblen hsame
+          have LN := lay_final (recsLay _ _ wn) (by omega) P4.lay pre4 hfblen hsame
+          have LR := lay_final (recsLay _ _ wr) (by omega) P5.lay pre5 hfblen hsame
           have hmdw : mdw.id = m.md.id ∧ mdw.op = m.md.op ∧ mdw.rcode = m.md.rcode := by
             rw [← hMD]; exact ⟨rfl, rfl, rfl⟩
           have hhw : HeaderWF mdw cc := by
